@@ -1,9 +1,10 @@
 (* Extraction entry point for C15: one generic [dispatch] over byte strings.
    Trees travel as flat argument lists, five byte strings per entry:
-     path ('/'-joined, relative to the root) ; kind "F"|"D" ; contents ; mtime (decimal) ; oracle ("" = generation
+     path ('/'-joined, relative to the root) ; kind "F"|"D" ; contents ; mtime (signed decimal: nanoseconds relative
+     to the Unix epoch, "-" first when before it, any number of digits) ; oracle ("" = generation
      fails or not a template, "S" ++ code = generation + gofmt of this file alone gives code) *)
 From Coq.Strings Require Import Byte String.
-From Coq Require Import List NArith Bool.
+From Coq Require Import List NArith ZArith Bool.
 Import ListNotations.
 From V Require Import lib.Bytes model.Walk spec.WalkSpec.
 Require Extraction.
@@ -23,6 +24,14 @@ Fixpoint join_slash (l : list bytes) : bytes :=
   match l with [] => [] | [x] => x | x :: r => x ++ x2f :: join_slash r end.
 Definition of_path (p : path) : bytes := join_slash (fst p ++ [snd p]).
 Definition num (s : bytes) : N := match undec s with Some n => n | None => 0%N end.
+(* signed decimal <-> Z *)
+Definition znum (s : bytes) : Z :=
+  match s with
+  | x2d :: r => Z.opp (Z.of_N (num r))
+  | _ => Z.of_N (num s)
+  end.
+Definition zdec (z : Z) : bytes :=
+  if Z.ltb z 0 then x2d :: dec (Z.abs_N z) else dec (Z.abs_N z).
 
 (* n entries, then the rest of the arguments *)
 Fixpoint dec_entries (n : nat) (a : list bytes) : list (path * entry) * list (path * bytes) * list bytes :=
@@ -33,7 +42,7 @@ Fixpoint dec_entries (n : nat) (a : list bytes) : list (path * entry) * list (pa
       | p :: kd :: c :: m :: g :: rest =>
           let '(es, os, tl) := dec_entries k rest in
           let pa := to_path p in
-          let e := if is kd "D" then Dir else File c (num m) in
+          let e := if is kd "D" then Dir else File c (znum m) in
           let os' := match g with x53 :: code => (pa, code) :: os | _ => os end in
           ((pa, e) :: es, os', tl)
       | _ => ([], [], [])
@@ -47,7 +56,7 @@ Definition enc_entry (p : path) (o : option entry) : list bytes :=
   match o with
   | None => [of_path p; bs "A"; []; bs "0"]
   | Some Dir => [of_path p; bs "D"; []; bs "0"]
-  | Some (File c m) => [of_path p; bs "F"; c; dec m]
+  | Some (File c m) => [of_path p; bs "F"; c; zdec m]
   end.
 Definition flag (s : bytes) : bool := bytes_eqb s (bs "1").
 
@@ -55,14 +64,15 @@ Definition dispatch (f : bytes) (a : list bytes) : list bytes :=
   if is f "skip" then [b2 (should_skip_name (arg 0 a)); b2 (skipped_name (arg 0 a)); b2 (matches_pattern (arg 0 a))]
   else if is f "run" then
     (* args: root, keep, lazy, now, n, entries.
-       reply: wf, failed, number of events, events in walk order, then (path, kind, contents, mtime) of every path
+       reply: wf_tree, failed, wf_shape (= wf_tree without the condition on modification times), number of events,
+       events in walk order, then (path, kind, contents, mtime) of every path
        of the listing and every sibling, after the sequential run of the walk's events *)
-    let root := arg 0 a in let keep := flag (arg 1 a) in let lazy := flag (arg 2 a) in let now := num (arg 3 a) in
+    let root := arg 0 a in let keep := flag (arg 1 a) in let lazy := flag (arg 2 a) in let now := znum (arg 3 a) in
     let '(l, os, _) := dec_entries (N.to_nat (num (arg 4 a))) (skipn 5 a) in
     let g := oracle os in
     let es := walk l in
     let st := run g keep lazy now (init (lookup l)) es in
-    [b2 (wf_tree g lazy root l); b2 (exit_fail (errs st)); dec (N.of_nat (length es))]
+    [b2 (wf_tree g lazy root l); b2 (exit_fail (errs st)); b2 (wf_shape g lazy root l); dec (N.of_nat (length es))]
     ++ map of_path es
     ++ flat_map (fun p => enc_entry p (tree st p)) (map fst l ++ siblings l)
   else if is f "check" then
